@@ -54,7 +54,7 @@ partial def loop (h out : IO.FS.Stream) (w : W) (io : Option (Nat × Nat) := non
     let p : PassIn := match rest with
       | now :: acc :: con :: soe :: envs => { now := now.toNat!, acc := acc.toNat!, con := digits con, soe := digits soe, envs := (envs.filter (fun x => !x.startsWith "H" && !x.startsWith "W")).map parseEnv }
       | _ => { now := 0, acc := 0, con := [0], soe := [0], envs := [] }
-    for l in signalPass w p do out.putStrLn l
+    for l in (match io with | some (_, o) => Pm.Daemon.Stdio.signalPassIO o w | none => signalPass w p) do out.putStrLn l
     out.putStrLn "O teardown"
     out.putStrLn "."
     loop h out w io
